@@ -321,15 +321,14 @@ theorem changePositions_tile (S s : Nat) (hS : 0 < S) (hs : 0 < s) :
     | zero => simp
     | succ t' =>
       have hk' : (t' + 1) * S + 0 - 1 = t' * S + (S - 1) := by rw [Nat.add_mul, Nat.one_mul]; omega
-      have hk2 : t' * S + (S - 1) < S * s := by omega
+      have hk2 : t' * S + (S - 1) < S * s := by rw [← hk']; omega
       have g2 : ((List.range (S * s)).map (fun j => j / S)).getD ((t' + 1) * S + 0 - 1) 0 = t' := by
         rw [hk', List.getD_eq_getElem?_getD, List.getElem?_map, List.getElem?_range hk2]
         simp only [Option.map_some, Option.getD_some]
         rw [Nat.mul_comm t' S, Nat.mul_add_div hS, Nat.div_eq_of_lt (by omega), Nat.add_zero]
       rw [g1, g2]
-      have : (t' + 1) * S + 0 ≠ 0 := by
-        have := Nat.mul_pos (Nat.succ_pos t') hS; omega
-      simp [this]
+      have hne : ¬ (t' + 1) * S = 0 := Nat.mul_ne_zero (Nat.succ_ne_zero t') (by omega)
+      simp [hne]
   | succ j' =>
     have hk' : t * S + (j' + 1) - 1 = t * S + j' := by omega
     have g2 : ((List.range (S * s)).map (fun j => j / S)).getD (t * S + (j' + 1) - 1) 0 = t := by
@@ -338,5 +337,120 @@ theorem changePositions_tile (S s : Nat) (hS : 0 < S) (hs : 0 < s) :
       rw [Nat.mul_comm t S, Nat.mul_add_div hS, Nat.div_eq_of_lt (by omega), Nat.add_zero]
     rw [g1, g2]
     simp
+
+theorem row_min (S s H : Nat) (hS : 0 < S) (hs : 0 < s) (hH : 0 < H) : (periodicRow S s H).min? = some 0 := by
+  rw [List.min?_eq_some_iff]
+  refine ⟨?_, fun b _ => Nat.zero_le b⟩
+  unfold periodicRow
+  refine List.mem_map.mpr ⟨0, List.mem_range.mpr (Nat.mul_pos hH (Nat.mul_pos hS hs)), ?_⟩
+  simp
+
+theorem starts_head (S s H : Nat) (hS : 0 < S) (hs : 0 < s) (hH : 0 < H) :
+    (whereEq (periodicRow S s H) 0).headD 1 = 0 := by
+  have := starts_at S s H 0 0 hS hs hH hS
+  simp only [Nat.zero_mul, Nat.add_zero] at this
+  cases hl : whereEq (periodicRow S s H) 0 with
+  | nil => rw [hl] at this; simp at this
+  | cons a r => rw [hl] at this; simpa using this
+
+/-- the values read at the first position of every index value: `V` itself -/
+theorem values_at_steps (S s H : Nat) (V : List Int) (hS : 0 < S) (hs : 0 < s) (hH : 0 < H) (hV : V.length = s) :
+    (0 :: (List.range (s - 1)).map (fun i => (i + 1) * S)).map
+        (fun i => ((List.range (H * (S * s))).map (fun r => V.getD (r / S % s) 0)).getD i 0) = V := by
+  have e : (0 :: (List.range (s - 1)).map (fun i => (i + 1) * S)) = (List.range s).map (fun i => i * S) := by
+    obtain ⟨s', rfl⟩ : ∃ s', s = s' + 1 := ⟨s - 1, by omega⟩
+    rw [List.range_succ_eq_map]
+    simp [List.map_map, Function.comp_def]
+  rw [e, List.map_map]
+  apply List.ext_getElem
+  · simp [hV]
+  · intro i h1 h2
+    have hi : i < s := by simpa using h1
+    have hlt : i * S < H * (S * s) := by
+      calc i * S < s * S := Nat.mul_lt_mul_of_pos_right hi hS
+        _ = 1 * (S * s) := by rw [Nat.one_mul, Nat.mul_comm]
+        _ ≤ H * (S * s) := Nat.mul_le_mul_right _ hH
+    simp only [List.getElem_map, List.getElem_range, Function.comp_apply]
+    rw [List.getD_eq_getElem?_getD, List.getElem?_map, List.getElem?_range hlt]
+    simp only [Option.map_some, Option.getD_some]
+    rw [Nat.mul_div_cancel _ hS, Nat.mod_eq_of_lt hi]
+    simp [List.getD_eq_getElem?_getD, List.getElem?_eq_getElem h2]
+
+/-- **`get_unit_values`, one dimension of a regular grid.**  For the index row of a dimension of size `s`
+    whose faster dimensions have `S` points together, repeated over `H >= 1` tiles, and the value row
+    holding `V[index]`: every guard of the statement-by-statement model passes and the result is `V`. -/
+theorem unitValuesRow_periodic (S s H : Nat) (V : List Int) (hS : 0 < S) (hs : 0 < s) (hH : 0 < H) (hV : V.length = s) :
+    unitValuesRow (periodicRow S s H) ((List.range (H * (S * s))).map (fun r => V.getD (r / S % s) 0)) = .ok V := by
+  unfold unitValuesRow
+  have hg2 : ¬ (((1 :: diffNat (whereEq (periodicRow S s H) 0)).eraseDups).filter (· != 1)).length > 1 := by
+    have := guard_steps S s H hS hs hH; omega
+  have hlen : (periodicRow S s H).length = H * (S * s) := by simp [periodicRow]
+  simp only [row_min S s H hS hs hH, starts_head S s H hS hs hH, bne_self_eq_false, Bool.false_eq_true, if_false, hg2,
+    tileIdxOf, tileIdx_eq S s H hS hs hH, hlen]
+  by_cases hA : 1 < s ∧ 1 < H
+  · -- several tiles of a multi-valued dimension
+    obtain ⟨h1, h2⟩ := hA
+    have hne : ((List.range (H - 1)).map (fun i => (i + 1) * S)).isEmpty = false := by
+      cases hh : H - 1 with
+      | zero => omega
+      | succ k => simp [List.range_succ_eq_map]
+    have hts : tileStartsFn (H * (S * s)) (whereEq (periodicRow S s H) 0) ((List.range (H - 1)).map (fun i => (i + 1) * S)) =
+        tileStartsOf S s H := by
+      unfold tileStartsFn tileStartsOf; simp only [hne, Bool.false_eq_true, if_false]
+    simp only [h1, if_true, hts, hne, Bool.not_false, Bool.true_and]
+    have hsubs : subsOf (periodicRow S s H) (tileStartsOf S s H) =
+        (List.range H).map (fun _ => (List.range (S * s)).map (fun j => j / S)) := by
+      unfold subsOf
+      rw [tileStartsOf_length S s H hH, Nat.add_sub_cancel]
+      apply List.map_congr_left
+      intro i hi
+      have hi' := List.mem_range.mp hi
+      rw [tileStartsOf_getD S s H i hS hs hH (by omega), tileStartsOf_getD S s H (i + 1) hS hs hH (by omega)]
+      have : (i + 1) * (S * s) - i * (S * s) = S * s := by rw [Nat.add_mul, Nat.one_mul]; omega
+      rw [this]
+      exact tile_window S s H i hS hi'
+    have hall : ((subsOf (periodicRow S s H) (tileStartsOf S s H)).all
+        (fun x => x == (subsOf (periodicRow S s H) (tileStartsOf S s H)).headD [])) = true := by
+      rw [hsubs, List.all_eq_true]
+      intro x hx
+      obtain ⟨i, _, rfl⟩ := List.mem_map.mp hx
+      obtain ⟨H', rfl⟩ : ∃ H', H = H' + 1 := ⟨H - 1, by omega⟩
+      simp [List.range_succ_eq_map]
+    simp only [hall, Bool.not_true, Bool.false_eq_true, if_false]
+    rw [tileStartsOf_getD S s H 0 hS hs hH (by omega), tileStartsOf_getD S s H 1 hS hs hH (by omega)]
+    have hw := tile_window S s H 0 hS hH
+    simp only [Nat.zero_mul, Nat.one_mul, Nat.sub_zero] at hw ⊢
+    rw [hw, changePositions_tile S s hS hs, values_at_steps S s H V hS hs hH hV]
+  · -- a single tile, or a single-valued dimension: no jump is found
+    have hempty : (if 1 < s then (List.range (H - 1)).map (fun i => (i + 1) * S) else []) = [] := by
+      by_cases h1 : 1 < s
+      · have : H = 1 := by omega
+        subst this; simp [h1]
+      · simp [h1]
+    simp only [hempty, List.isEmpty_nil, Bool.not_true, Bool.false_and, Bool.false_eq_true, if_false, tileStartsFn, if_true,
+      List.getD_cons_zero, List.getD_cons_succ, Nat.sub_zero, List.drop_zero]
+    have htake : (periodicRow S s H).take (H * (S * s)) = periodicRow S s H := by
+      rw [List.take_of_length_le (by rw [hlen]; exact Nat.le_refl _)]
+    rw [htake]
+    by_cases h1 : 1 < s
+    · have hH1 : H = 1 := by omega
+      subst hH1
+      have hw := tile_window S s 1 0 hS (by omega)
+      simp only [Nat.zero_mul, List.drop_zero] at hw
+      have hrow : periodicRow S s 1 = (List.range (S * s)).map (fun j => j / S) := by
+        rw [← hw, List.take_of_length_le (by rw [hlen]; simp)]
+      rw [hrow, changePositions_tile S s hS hs, values_at_steps S s 1 V hS hs (by omega) hV]
+    · have hs1 : s = 1 := by omega
+      subst hs1
+      have hcp : changePositions (periodicRow S 1 H) = [] := by
+        unfold changePositions
+        rw [List.filter_eq_nil_iff]
+        intro j hj
+        have hj' : j < H * (S * 1) := by rw [← hlen]; exact List.mem_range.mp hj
+        rw [periodicRow_getD S 1 H j hj', periodicRow_getD S 1 H (j - 1) (by omega)]
+        simp [Nat.mod_one]
+      rw [hcp]
+      have := values_at_steps S 1 H V hS (by omega) hH hV
+      simpa using this
 
 end Usid.UV
